@@ -44,6 +44,8 @@ def run(ctx):
     ctx.rule("R20-8", "what the completer writes inside an open double quote is read back unchanged: the characters the tokenizer "
                       "unescapes inside double quotes (computed by exploring parse_line's character loop, as in C16 R16-3) "
                       "are exactly characters wrap_sep_string escapes there")
+    ctx.rule("R20-9", "the word that was inserted is the word that is expanded and handed on: the expansion passes write each "
+                      "result back into the slot it was computed for (E-EDITLIST on the passes of do_expansion)")
     ctx.rule("R20-2", "inside an open quote q, wrap_sep_string(q, name) escapes every character special inside q")
     ctx.rule("R20-3", "candidates: entries whose name starts_with the typed prefix; non-directories skipped when "
                       "for_dir; result sorted; unquoted names go through escape_path, quoted ones through wrap_sep_string")
@@ -60,6 +62,11 @@ def run(ctx):
             ctx.floor("R20-5", crate, "index-space obligations", n, 2)
             quote_state_rule(ctx, crate)
         cd_prefix_rule(ctx, crate)
+        from .. import editlist
+        from .c13 import passes_in_order
+        de_, ps_ = passes_in_order(crate)
+        n_ = editlist.rule(ctx, crate, "R20-9", ps_)
+        ctx.floor("R20-9", crate, "passes with a token vector", n_, 7)
         from .c16 import dq_roundtrip_rule
         n0 = len(ctx.obligations)
         v0 = set(ctx.violations)
